@@ -18,6 +18,9 @@ struct Budgeted<'a> {
     jump_at: Option<f64>,
     x0: f64,
 }
+/// right-hand side that turns NaN once the first component exceeds a limit (a state-dependent breakdown, like sqrt of a
+/// negative number): `nan_above` is read from a thread-local so that the struct literal used everywhere stays as it is
+thread_local! { static NAN_ABOVE: std::cell::Cell<Option<f64>> = const { std::cell::Cell::new(None) }; }
 impl<'a> IVP for Budgeted<'a> {
     fn ode(&self, t: f64, y: &[f64], d: &mut [f64]) {
         if self.p.count.get() > self.limit {
@@ -29,6 +32,9 @@ impl<'a> IVP for Budgeted<'a> {
         }
         if let Some(tj) = self.jump_at {
             if (t - self.x0).abs() > tj.abs() { for v in d.iter_mut() { *v = -*v + 3.0; } }
+        }
+        if let Some(lim) = NAN_ABOVE.with(|c| c.get()) {
+            if y[0].abs() > lim { for v in d.iter_mut() { *v = f64::NAN; } }
         }
     }
     fn n_events(&self) -> usize { self.p.n_events() }
@@ -227,6 +233,37 @@ pub fn interval(args: &[String]) {
         }
         out("iv", 100000 + case, &c, "stiff", key, &why, &extra);
     }
+    // a first step that already covers the whole interval (first_step >= span): the landing step is the first trial step
+    // and is usually rejected; the run must still end at xend
+    {
+        let mut k = 0;
+        for method in ADAPTIVE {
+            for kind in [Kind::Harmonic, Kind::VdP, Kind::Riccati, Kind::Mixed] {
+                for (span, mult, rtol) in [(5.0, 1.0, 1e-6), (3.0, 2.0, 1e-4), (1.0, 1.0 / 1.005, 1e-8), (-4.0, 1.5, 1e-5)] {
+                    let (x0, xend) = (0.0, span);
+                    let c = Cfg { kind, method, x0, xend, rtol, atol: rtol * 1e-2, first: Some(span * mult), maxstep: None, nmax: None };
+                    let p = Prob::new(kind);
+                    let b = Budgeted { p: &p, limit: 3_000_000, nan_after: None, jump_at: None, x0 };
+                    let res = catch_unwind(AssertUnwindSafe(|| solve_ivp(&b, x0, xend, &p.y0(), c.opts())));
+                    let (mut why, mut key, mut extra) = (String::new(), "", String::new());
+                    match res {
+                        Err(_) => { why = "solve_ivp panicked or exceeded the work budget".into(); key = "c04-hang-or-panic"; }
+                        Ok(Err(_)) => { extra = "\"status\":\"Err\",".into(); }
+                        Ok(Ok(sol)) => {
+                            let last = *sol.t.last().unwrap();
+                            extra = format!("\"status\":\"{:?}\",\"n\":{},\"last\":{},", sol.status, sol.t.len(), jnum(last));
+                            if sol.status == Status::Success && (last - xend).abs() > 1e-12 * (1.0 + xend.abs()) {
+                                key = "c03-success-not-reached";
+                                why = format!("Success but the last sample is t = {} (xend = {}, {} samples): first_step = {} covers the interval", last, xend, sol.t.len(), span * mult);
+                            }
+                        }
+                    }
+                    out("iv", 300000 + k, &c, "first-step-covers-span", key, &why, &extra);
+                    k += 1;
+                }
+            }
+        }
+    }
     // max_step dividing the span (with the controller sitting on max_step): the steps add up to xend minus a rounding
     // remainder; the run must still end with Success at xend
     {
@@ -278,14 +315,19 @@ pub fn hostile(args: &[String]) {
     let mut rng = Rng(seed ^ 0xC04);
     for case in 0..cases {
         // the first 18 cases sweep the blow-up problem over every method and three non-zero origins
-        let (method, variant, forced_x0) = if case < 18 { (ALL_METHODS[case % 6], 0, Some([-3.0, -1000.0, 2.5][case / 6])) } else { (*rng.pick(&ALL_METHODS), rng.below(5), None) };
+        let (method, variant, forced_x0) = if case < 18 { (ALL_METHODS[case % 6], 0, Some([-3.0, -1000.0, 2.5][case / 6])) }
+            else if case < 30 { ([Method::RADAU, Method::BDF, Method::RK23, Method::DOPRI5][case % 4], 5, None) }
+            else { (*rng.pick(&ALL_METHODS), rng.below(6), None) };
         let (kind, xend, nan_after, jump_at, name) = match variant {
             0 => (Kind::Blowup, rng.range(1.2, 3.0), None, None, "blow-up y'=y^2 (pole at t=1)"),
             1 => (Kind::Stiff, rng.range(0.5, 3.0), None, None, "stiff decay (rate 1000)"),
             2 => (*rng.pick(&SMOOTH), rng.range(1.0, 3.0), Some(rng.range(0.2, 0.9)), None, "NaN after t*"),
             3 => (*rng.pick(&SMOOTH), rng.range(1.0, 3.0), None, Some(rng.range(0.2, 0.9)), "discontinuous right-hand side"),
+            5 => (Kind::Logistic, rng.range(2.6, 4.0), None, None, "right-hand side NaN once |y| exceeds a limit"),
             _ => (Kind::Blowup, -rng.range(0.5, 2.0), None, None, "y'=y^2 backward (decays)"),
         };
+        // state-dependent breakdown: logistic growth from 0.1 towards 1, NaN once y > 0.5 (reached near t = 2.2)
+        NAN_ABOVE.with(|c| c.set(if variant == 5 { Some(0.5) } else { None }));
         let rtol = 10f64.powf(-rng.range(3.0, 7.0));
         let nmax = if rng.chance(0.4) { Some(50 + rng.below(2000)) } else { None };
         // the same scenario at an origin left or right of zero (all test problems except Riccati are autonomous)
@@ -300,6 +342,9 @@ pub fn hostile(args: &[String]) {
         let t0 = std::time::Instant::now();
         let mut o = c.opts();
         o.min_step = min_step;
+        // a user first step on half of the breakdown cases: as long as the span (the first trial step is the landing step),
+        // or short
+        if variant == 5 && case % 2 == 0 { o.first_step = Some(if case % 4 == 0 { xend - x0 } else { 0.01 }); }
         let res = catch_unwind(AssertUnwindSafe(|| solve_ivp(&b, x0, xend, &y0, o)));
         let secs = t0.elapsed().as_secs_f64();
         let mut why = String::new();
@@ -314,9 +359,50 @@ pub fn hostile(args: &[String]) {
                 if variant == 0 && sol.status == Status::Success && method != Method::RK4 { why = format!("{}: integration across a pole reported Success", name); key = "c04-blowup-success"; }
                 if variant == 2 && sol.status == Status::Success && method != Method::RK4 { why = format!("{}: Success although the right-hand side returns NaN before xend", name); key = "c04-nan-success"; }
                 if sol.t.len() != sol.y.len() { why = "t and y have different lengths".into(); key = "c04-shape"; }
+                if variant == 5 && sol.status == Status::Success && method != Method::RK4 { why = format!("{}: Success although the solution leaves the region where the right-hand side is defined (last sample t = {:?}, xend = {})", name, sol.t.last(), xend); key = "c04-nan-success"; }
             }
         }
         out("hs", case, &c, name, key, &why, &extra);
+    }
+    NAN_ABOVE.with(|c| c.set(None));
+    // right-hand sides that break down at a state the solution reaches (sqrt of a negative number; undefined above a limit),
+    // with user first steps from tiny to the whole span: Success must mean that xend was reached with finite samples
+    {
+        let mut k = 0;
+        for method in ADAPTIVE {
+            for (prob, xend) in [(0usize, 3.0), (1usize, 2.0), (1usize, -2.0)] {
+                for first in [0.01, 0.1, 1.0, 2.0, 3.0] {
+                    let o = { let mut o = Options::builder().method(method).build(); o.first_step = Some(first); o };
+                    let calls = std::cell::Cell::new(0usize);
+                    let f = Breakdown { which: prob, sign: if xend < 0.0 { -1.0 } else { 1.0 }, calls: &calls };
+                    let res = catch_unwind(AssertUnwindSafe(|| solve_ivp(&f, 0.0, xend, &[1.0], o)));
+                    let (mut why, mut key, mut extra) = (String::new(), "", String::new());
+                    match res {
+                        Err(_) => { why = "solve_ivp panicked or did not finish within 3e6 right-hand-side calls".into(); key = "c04-hang-or-panic"; }
+                        Ok(Err(_)) => { extra = "\"status\":\"Err\",".into(); }
+                        Ok(Ok(sol)) => {
+                            let last = *sol.t.last().unwrap();
+                            extra = format!("\"status\":\"{:?}\",\"n\":{},\"last\":{},", sol.status, sol.t.len(), jnum(last));
+                            if !sol.y.iter().all(|v| finite(v)) && sol.status == Status::Success { why = "Success with non-finite samples".into(); key = "c04-nonfinite-success"; }
+                            else if sol.status == Status::Success && last != xend { why = format!("Success although the run stopped at t = {} (xend = {}), {} samples", last, xend, sol.t.len()); key = "c04-success-short"; }
+                        }
+                    }
+                    println!("{{\"kind\":\"hs\",\"case\":{},\"problem\":\"{}\",\"method\":\"{}\",\"x0\":0,\"xend\":{},\"first_step\":{},\"branch\":\"breakdown\",\"finding_key\":\"{}\",{}\"ok\":{},\"why\":{:?}}}",
+                        400000 + k, if prob == 0 { "tank y'=-sqrt(y)" } else { "y'=y, NaN above 2" }, method_name(method), xend, first, key, extra, why.is_empty(), why);
+                    k += 1;
+                }
+            }
+        }
+    }
+}
+
+/// 0: draining tank y' = -sqrt(y) (NaN for y < 0);  1: y' = sign * y, NaN once y > 2.  Default finite-difference Jacobian.
+struct Breakdown<'a> { which: usize, sign: f64, calls: &'a std::cell::Cell<usize> }
+impl<'a> IVP for Breakdown<'a> {
+    fn ode(&self, _x: f64, y: &[f64], d: &mut [f64]) {
+        self.calls.set(self.calls.get() + 1);
+        if self.calls.get() > 3_000_000 { panic!("work budget exceeded"); }
+        d[0] = if self.which == 0 { -y[0].sqrt() } else if y[0] > 2.0 { f64::NAN } else { self.sign * y[0] };
     }
 }
 
@@ -545,6 +631,34 @@ pub fn protocol(args: &[String]) {
                             let same_x = r4.cbs[j].x == r5.cbs[j].x;
                             let dbl = r4.cbs[j].y.iter().zip(r5.cbs[j].y.iter()).all(|(u, v)| *u == 2.0 * *v);
                             if !same_x || !dbl { fail(dk, format!("after doubling the state at callback {}, callback {} is not the doubled plain run", k, j), &mut why, &mut key); break; }
+                        }
+                    }
+                }
+            }
+        }
+        // ---- ModifiedSolution in the *initial* callback: writing c*y0 there is the same as starting at c*y0 (with a given first
+        // step, so that the automatic step-size guess, which is made before the callback, plays no role)
+        if why.is_empty() && c.method != Method::RK4 {
+            let first = Some(c.first.unwrap_or(sgn * span * if case % 2 == 0 { 0.05 } else { 0.3 }).abs().min(c.maxstep.unwrap_or(f64::INFINITY)) * sgn);
+            let factor = [2.0, 0.5, 1.0 / 1024.0, 3.0][case % 4];
+            let imp = matches!(c.method, Method::RADAU | Method::BDF);
+            let pa = Prob { user_jac: imp, ..Prob::new(c.kind) };
+            let mut ra = Recorder::new();
+            ra.script = vec![(0, Reply::Modify(factor))];
+            let pb = Prob { user_jac: imp, ..Prob::new(c.kind) };
+            let mut rb = Recorder::new();
+            rb.script = vec![(0, Reply::Modify(1.0))];
+            let yb: Vec<f64> = y0.iter().map(|v| v * factor).collect();
+            let a = lowlevel(c.method, &pa, c.x0, &y0, c.xend, c.rtol, c.atol, first, c.maxstep, Some(400), &mut ra);
+            let b = lowlevel(c.method, &pb, c.x0, &yb, c.xend, c.rtol, c.atol, first, c.maxstep, Some(400), &mut rb);
+            if let (Ok(a), Ok(b)) = (a, b) {
+                if a.status != b.status || ra.cbs.len() != rb.cbs.len() {
+                    fail("c19-modified-initial", format!("writing {} * y0 in the initial callback: {:?} after {} callbacks; starting at {} * y0: {:?} after {} callbacks", factor, a.status, ra.cbs.len(), factor, b.status, rb.cbs.len()), &mut why, &mut key);
+                } else {
+                    for j in 1..ra.cbs.len() {
+                        if ra.cbs[j].x != rb.cbs[j].x || ra.cbs[j].y != rb.cbs[j].y {
+                            fail("c19-modified-initial", format!("writing {} * y0 in the initial callback differs from starting at {} * y0 at callback {} (x = {} vs {})", factor, factor, j, ra.cbs[j].x, rb.cbs[j].x), &mut why, &mut key);
+                            break;
                         }
                     }
                 }
